@@ -57,3 +57,77 @@ def check_scan_extent(chk, prog, R=None):
                       "row-id bound derives from the live-row count (Table::len / stale_rows): rows at the physical end of the buffer are never visited",
                       f"{f.file}:{line}")
     chk.floor(R, n_phys, 4, "row-id bounds derived from the physical extent in SortedWritesTable code")
+
+
+CLAMP_PASS = ("cmp::min", "cmp::max", "Ord>::min", "Ord>::max", "NumericId>::index", "NumericId::index", "NumericId>::from_usize", "NumericId::from_usize",
+              "NumericId>::new", "usize::min", "usize::max")
+
+
+def clamp_sources(prog, f, operand, depth=0, seen=None):
+    """like deep_sources, but arithmetic is NOT looked through: only copies, phis, min/max, id<->usize conversions and closure captures.
+    What comes back is the set of values the operand can be *equal to*, not merely computed from."""
+    if seen is None:
+        seen = set()
+    out = set()
+    if depth > 10:
+        return out
+    for a in f.origins(operand):
+        key = (f.name, a)
+        if key in seen:
+            continue
+        seen.add(key)
+        if a[0] == "call" and any(a[1].endswith(p) for p in CLAMP_PASS):
+            c = f.call_at(a[2])
+            for o in c.args:
+                out |= clamp_sources(prog, f, o, depth + 1, seen)
+        elif a[0] == "param" and a[1] == 1 and f.kind == "closure" and a[2] and a[2][0].isdigit():
+            par = prog.fns.get(f.parent)
+            done = False
+            if par is not None:
+                for (bi, bj, name, ops) in par.closures_created():
+                    if name == f.name and int(a[2][0]) < len(ops):
+                        out |= clamp_sources(prog, par, ops[int(a[2][0])], depth + 1, seen)
+                        done = True
+            if not done:
+                out.add(key)
+        else:
+            out.add(key)
+    return out
+
+
+def check_chunk_covers(chk, prog, R=None):
+    R = R or chk.rule("R-CHUNK-COVERS", "where SortedWritesTable code walks its row storage in chunks — a (start, end) pair of row ids handed to Rebuilder::rebuild_buf / OffsetRange::new / a "
+                      "Range, with a non-constant start and an end derived from the physical extent — the end of a chunk can be the extent itself: the extent reaches the end operand "
+                      "through copies, min/max clamps and id conversions only, not only through arithmetic. A partition whose last chunk ends at a value merely *computed from* the "
+                      "extent (e.g. n * (extent / n)) drops the remainder rows")
+    n = 0
+    for f in prog.lib_fns(["egglog_core_relations"]):
+        if not in_scope(prog, f):
+            continue
+        pairs = []
+        for c in f.calls:
+            if c.d.endswith("Rebuilder::rebuild_buf") and len(c.args) >= 4:
+                pairs.append((c.args[2], c.args[3], c.line, "rebuild_buf"))
+            elif c.p.endswith("OffsetRange::new") and len(c.args) >= 2:
+                pairs.append((c.args[0], c.args[1], c.line, "OffsetRange::new"))
+        for i, j, s in f.assigns():
+            rv = s[2]
+            if rv[0] == "agg" and rv[2] == "core::ops::range::Range" and len(rv[4]) >= 2:
+                pairs.append((rv[4][0], rv[4][1], s[3], "range"))
+        for (st, en, line, kind) in pairs:
+            ssrc = deep_sources(prog, f, st)
+            if not ssrc or all(a[0] == "const" for (_n, a) in ssrc):
+                continue  # [0, end): not a chunk
+            phys, live = classify(deep_sources(prog, f, en))
+            if not phys:
+                continue
+            # the start itself must vary per chunk: it derives from an iterator item or a closure parameter
+            if not any(a[0] == "param" or (a[0] == "call" and a[1].endswith("::next")) for (_n, a) in ssrc):
+                continue
+            n += 1
+            cphys, _ = classify(clamp_sources(prog, f, en))
+            root = f.root or f.name
+            chk.judge(cphys, R, f"{root}:{kind}-end{'@closure' if f.kind == 'closure' else ''}", "a chunk's end can equal the physical extent (clamped, not only computed)",
+                      "the end of a row-id chunk is only computed from the physical extent by arithmetic and never clamped to it: unless the extent divides evenly the last rows "
+                      "of the table are in no chunk and are never rebuilt", f"{f.file}:{line}")
+    chk.floor(R, n, 2, "chunked row-id walks in SortedWritesTable (serial and parallel arm of rebuild_nonincremental)")
